@@ -84,12 +84,56 @@ def rule_reserved(ctx: Ctx):
                     filt = any(isinstance(c, ast.Compare) and len(c.ops) == 1 and isinstance(c.ops[0], ast.NotIn)
                                and show(c.left) == kname and show(c.comparators[0]) == tname for c in g.ifs)
                     ok = filt and show(g.iter) == "kwargs.items()" and show(vt.key) == kname and show(vt.value) == vname
+                elif isinstance(v, ast.Name) and v.id.startswith("$l"):
+                    ok, detail = _filter_loop(p, v.id, tname)
+                    if ok is None:
+                        continue  # infeasible / no iteration on this path: nothing to decide
                 rep.check(ok, "C07.reserved", e.loc(), "user keyword arguments are stored without the reserved names "
                           "(built-ins cannot be overridden or leaked)", call.key, norm_stmt(e.node), kwargs=detail)
                 a = kw.get("args")
                 rep.check(a is not None and show(a) == "args", "C07.reserved", e.loc(), "positional arguments are stored unchanged",
                           call.key, norm_stmt(e.node))
     rep.floor("C07.reserved", "TriggerData constructions in Event.__call__", n, 1)
+
+
+def _filter_loop(p, obj: str, tname: str):
+    """kwargs filtered by an explicit loop into the fresh dict `obj`: every iteration stores (key, value) iff the key is
+    not reserved.  Returns (ok, detail); ok None when the path has no iteration."""
+    evs = p.events
+    marks = [e for e in evs if e.kind in ("iter", "exhaust") and e.x.get("loop", "for") == "for" and xshow(e.term, evs) == "kwargs.items()"]
+    segs = [(a, evs[a.idx + 1: b.idx]) for a, b in zip(marks, marks[1:]) if a.kind == "iter"]
+    alloc = next((e for e in evs if e.kind == "alloc" and f"$l{e.idx}" == obj), None)
+    if alloc is None or not isinstance(alloc.term, ast.Dict) or alloc.term.keys:
+        return False, f"{obj} = {show(alloc.term) if alloc is not None else '?'}"
+    other = [e for e in evs if e.kind == "store" and e.x.get("subscript") and show(e.term.value) == obj and not any(e in sg for _, sg in segs)]
+    if other:
+        return False, f"written outside the filtering loop: {norm_stmt(other[0].node)}"
+    if not segs:
+        return None, "no iteration"
+    for it, seg in segs:
+        el = xshow(it.x["elem"], evs)
+        reserved = None
+        for b in seg:
+            if b.kind != "branch":
+                continue
+            t = expand1(b.term, evs)
+            pol = b.x["taken"]
+            while isinstance(t, ast.UnaryOp) and isinstance(t.op, ast.Not):
+                t, pol = t.operand, not pol
+            if isinstance(t, ast.Compare) and len(t.ops) == 1 and isinstance(t.ops[0], (ast.In, ast.NotIn)) and xshow(t.left, evs) == f"{el}[0]" \
+                    and show(t.comparators[0]) == tname:
+                reserved = pol if isinstance(t.ops[0], ast.In) else not pol
+            else:
+                return False, f"loop tests `{show(t)}`"
+        st = [e for e in seg if e.kind == "store" and e.x.get("subscript") and show(e.term.value) == obj]
+        if reserved is None:
+            return False, "a key is copied without the reserved-name test" if st else "keys are dropped without the reserved-name test"
+        if reserved and st:
+            return False, "a reserved key is copied"
+        if not reserved:
+            if len(st) != 1 or xshow(st[0].term.slice, evs) != f"{el}[0]" or xshow(st[0].x["value"], evs) != f"{el}[1]":
+                return False, "a user key is not copied unchanged: " + (norm_stmt(st[0].node) if st else "no store")
+    return True, "explicit loop: copies (key, value) iff key not in " + tname
 
 
 def rule_layer(ctx: Ctx):
